@@ -126,6 +126,11 @@ def run(P, rep, tier):
     else:
         raise AnalysisError('result key for the processed-line count not identified')
 
+    r7 = rep.rule('C14-R7', 'hunk geometry, totals, consumed lines and error positions equal the reference semantics for every '
+                  'sequence of line classes up to the bound (headers concrete, line contents abstract)', reference=1)
+    from sa.props.c14geo import geometry_rule
+    geometry_rule(P, rep, r7, tier)
+
     # ---- R4 marker branch --------------------------------------------------------
     r4 = rep.rule('C14-R4', 'the "\\\\ No newline at end of file" marker branch touches no counter', reference=1)
     marker_tests = []
